@@ -20,6 +20,7 @@ fn main() {
             _ => { eprintln!("unknown arg {}", args[i]); std::process::exit(2); }
         }
     }
+    if prop == "dispdbg" { c05::debug_scenario(seed, n); return; }
     // panics are caught per case; keep stderr quiet
     std::panic::set_hook(Box::new(|_| {}));
     let mut sink = util::Sink::create(&out);
